@@ -378,13 +378,13 @@ clause (distinct by enumeration index); 'paths' cases on a non-plain route or wi
     randoms: &[
         RandomDef {
             name: "decorated",
-            cases: |t: Tier| t.pick(400_000, 6_000_000),
+            cases: |t: Tier| t.pick(400_000, 30_000_000),
             tape_len: 200,
             exec: Some(exec_decorated),
         },
         RandomDef {
             name: "paths",
-            cases: |t: Tier| t.pick(300_000, 4_000_000),
+            cases: |t: Tier| t.pick(300_000, 24_000_000),
             tape_len: 40,
             exec: Some(exec_paths),
         },
